@@ -385,7 +385,7 @@ def scan_order(ctx: Context, res, roots, rule_a: str, rule_b: str) -> Tuple[int,
                             obj, pos = c.args[0], c.args[1]
                         elif nm_ in ("insert", "pop") and isinstance(c.func, ast.Attribute) and c.args:
                             obj, pos = c.func.value, c.args[0]
-                        if pos is not None and isinstance(pos, ast.Name) and pos.id in loop_vars and isinstance(obj, ast.Name):
+                        if pos is not None and any(isinstance(x_, ast.Name) and x_.id in loop_vars for x_ in ast.walk(pos)) and isinstance(obj, ast.Name):
                             key = f"{fn.qualname}|sequential {nm_} at positions from the mode tuple"
                             ctx.violation(rule_b, key, fn.file, c.lineno,
                                           f"`{norm(c)[:80]}` edits `{obj.id}` at a position taken from the mode tuple inside a loop over the mode tuple: every "
@@ -394,7 +394,8 @@ def scan_order(ctx: Context, res, roots, rule_a: str, rule_b: str) -> Tuple[int,
                     # `del obj[m]` is the statement form of the same edit
                     for dl in [x for b in n.body for x in ast.walk(b) if isinstance(x, ast.Delete)]:
                         for t in dl.targets:
-                            if isinstance(t, ast.Subscript) and isinstance(t.value, ast.Name) and isinstance(t.slice, ast.Name) and t.slice.id in loop_vars:
+                            if isinstance(t, ast.Subscript) and isinstance(t.value, ast.Name) and not isinstance(t.slice, ast.Slice) \
+                                    and any(isinstance(x_, ast.Name) and x_.id in loop_vars for x_ in ast.walk(t.slice)):
                                 key = f"{fn.qualname}|sequential del at positions from the mode tuple"
                                 ctx.violation(rule_b, key, fn.file, dl.lineno,
                                               f"`{norm(dl)[:80]}` deletes from `{t.value.id}` at a position taken from the mode tuple inside a loop over the mode "
